@@ -406,4 +406,28 @@ def c17(tier, seed):
         exhaustive=True)
 
 
-CHECKS = {'C04': c04, 'C17': c17, 'C14': c14, 'C13': c13, 'C18': c18, 'C15': c15, 'C20': c20, 'C11': c11, 'C07': c07, 'C08': c08, 'C09': c09, 'C19': c19, 'C10': c10, 'C01': c01, 'C02': c02, 'C03': c03, 'C05': c05, 'C06': c06, 'C12': c12}
+
+def c16(tier, seed):
+    t = 'quick' if tier == 'quick' else 'thorough'
+    return dict(stages=[Stage('specgen', mc=('SpecGenMC', 'SpecGen_%s.cfg' % t), emit=('SpecGenMC', 'SpecGen_%s_emit.cfg' % t),
+                              driver='specgen', trace=('SpecGenTrace', 'SpecGenTrace.cfg'),
+                              deviations={'OpenApi30Invalid': 'SpecGenTrace_dev_OpenApi30Invalid.cfg',
+                                          'DocstringNullType': 'SpecGenTrace_dev_DocstringNullType.cfg'},
+                              nontrivial=lambda tr: len(tr['ev']) == 3)],
+                rule='method sets of 1..%d methods from a pool of 4 functions (annotated scalar / container / model / optional '
+                     'parameters, model / list / None / missing return annotations, docstrings with and without :param / :raises:) x '
+                     'root / additional endpoint x errors annotation unset / own list / ONE LIST OBJECT SHARED by several methods x tags x '
+                     'component prefix x extractor stacks (base, pydantic, docstring+pydantic; OpenRPC: pydantic, docstring) x two '
+                     'endpoint path prefixes x OpenAPI 3.1 / 3.0 / OpenRPC x 3 repeated generations on the same specification '
+                     'object; every document is projected onto its entries (method, endpoint, error codes, tags, component prefix) and '
+                     'judged for JSON-encodability, meta-schema validity (jsonschema 4 under python3-vt), dangling $ref and mutation of '
+                     'the user objects; non-trivial = three documents were generated' % (2 if tier == 'quick' else 3),
+                assumptions=ASSUME_COMMON + ['meta-schema validity, $ref closure, JSON-encodability and deep equality of user objects are '
+                                             'computed by the driver (jsonschema 4.26, official meta-schemas copied from the repository\'s test '
+                                             'resources) and required to be TRUE by the trace specification (DESIGN 3.4)',
+                                             'the empty endpoint path "" is not explored (OpenAPI paths must start with "/")',
+                                             'documented parameters are covered by C17'],
+                exhaustive=True)
+
+
+CHECKS = {'C04': c04, 'C16': c16, 'C17': c17, 'C14': c14, 'C13': c13, 'C18': c18, 'C15': c15, 'C20': c20, 'C11': c11, 'C07': c07, 'C08': c08, 'C09': c09, 'C19': c19, 'C10': c10, 'C01': c01, 'C02': c02, 'C03': c03, 'C05': c05, 'C06': c06, 'C12': c12}
